@@ -120,6 +120,16 @@ func saslrawScenario(s *Sim, params map[string]string) {
 		if alloc > limit {
 			s.Fail("C20", "R3-allocation", "%s: the call allocated %d bytes for %d bytes received over %d connection attempts (limit %d)", desc, alloc, received, fired, limit)
 		}
+		// C18: a reply that ends before its announced length (the broker closed)
+		// is no acceptance; nothing more may be written on that connection
+		if closeAfter && val > int64(nDeliver) {
+			for _, cn := range n.Conns() {
+				if cn.WritesAfter > 0 {
+					s.Fail("C18", "R1-sent-before-authenticated", "%s: the client wrote %d more times on connection c%d after the broker had closed it in the middle of its reply: it went on as if authenticated", desc, cn.WritesAfter, cn.ID)
+					break
+				}
+			}
+		}
 		s.Stats["saslraw-alloc-kb"] = int(alloc / 1024)
 		n.Shutdown()
 	})
